@@ -214,11 +214,17 @@ SliceHead(t, n, k) ==
 ---------------------------------------------------------------------------
 (* group_by / ungroup: no data changes *)
 
+(* a column named several times (or one the table is grouped by already, with add) counts once *)
+RECURSIVE AppendNew(_, _)
+AppendNew(base, ids) ==
+    IF ids = <<>> THEN base
+    ELSE AppendNew(IF \E q \in DOMAIN base : base[q] = Head(ids) THEN base ELSE Append(base, Head(ids)), Tail(ids))
+
 GroupBy(t, cs, add) ==
     IF \E i \in DOMAIN cs : cs[i].k = "col" /\ cs[i].id \notin VisSet(t) THEN Fail("ValueError")
     ELSE IF \E i \in DOMAIN cs : ~RefVisible(t, cs[i]) THEN Fail("ColumnNotFoundError")
     ELSE LET ids == [i \in DOMAIN cs |-> RefId(t, cs[i])] IN
-         Ok([t EXCEPT !.part = IF add THEN t.part \o ids ELSE ids])
+         Ok([t EXCEPT !.part = AppendNew(IF add THEN t.part ELSE <<>>, ids)])
 
 Ungroup(t) == Ok([t EXCEPT !.part = <<>>])
 
